@@ -1066,7 +1066,7 @@ func callBuiltin(caller *frame, callpos token.Pos, fn *ssa.Builtin, args []value
 		case []value:
 			return len(x)
 		case map[value]value:
-			return len(x)
+			return len(x) + symMapExtraLen(x)
 		case *hashmap:
 			return x.len()
 		case chan value:
